@@ -237,7 +237,10 @@ fn one(rng: &mut Rng, out: &mut UnitResult, fmt: &str, ctxj: serde_json::Value) 
         "xlsb" => {
             let mut ch = XlsbChoices::random(rng);
             ch.big_noise = false;
-            let b = xlsb::encode(&book, &ch, &XlsbExtra::default(), rng).bytes;
+            ch.rows_shuffled = rng.chance(1, 3);
+            let enc = xlsb::encode(&book, &ch, &XlsbExtra::default(), rng);
+            out.feat_n("xlsb:rows_out_of_order", *enc.counts.get("rows_out_of_order").unwrap_or(&0));
+            let b = enc.bytes;
             out.case(Some(hash_bytes(&b)));
             run_format!("xlsb", Xlsb<_>, b, true, exp_rows, max_row, rng, out, ctxj);
         }
@@ -281,7 +284,7 @@ impl Prop for C08 {
         tier.pick(16, 160)
     }
     fn mandatory(&self, _t: Tier) -> Vec<String> {
-        ["fmt:xlsx", "fmt:xlsb", "fmt:xls", "fmt:ods", "n:before_data", "n:after_data", "n:on_data_row", "n:in_gap", "n:empty_sheet", "option_changed_back", "xlsx:rows_out_of_order"].iter().map(|s| s.to_string()).collect()
+        ["fmt:xlsx", "fmt:xlsb", "fmt:xls", "fmt:ods", "n:before_data", "n:after_data", "n:on_data_row", "n:in_gap", "n:empty_sheet", "option_changed_back", "xlsx:rows_out_of_order", "xlsb:rows_out_of_order"].iter().map(|s| s.to_string()).collect()
     }
     fn run_unit(&self, ctx: &Ctx, unit: u64, out: &mut UnitResult) {
         let mut rng = Rng::derive(ctx.seed, "c08", unit);
